@@ -287,7 +287,7 @@ class Rig:
             waited += 0.00037
 
     # ---- API-only drain audit
-    async def drain(self, conn, queue: str, *, ack: bool = True):
+    async def drain(self, conn, queue: str, *, ack: bool = True, with_key: bool = False):
         """Consume everything from NORMAL, then DELAYED, then DEAD through the public API.
         Returns list of (category, id, payload, params-summary)."""
         from repid.message import MessageCategory
@@ -305,7 +305,7 @@ class Rig:
                             key, payload, params = await asyncio.wait_for(cons.consume(), timeout=idle)
                         except asyncio.TimeoutError:
                             break
-                        out.append((cat.value, key.id_, payload, psum(params)))
+                        out.append((cat.value, key.id_, payload, psum(params)) + ((key,) if with_key else ()))
                         if ack:
                             await conn.message_broker.ack(key)
                 finally:
